@@ -12,14 +12,19 @@ import (
 )
 
 // The page-factory seam (queue.VerifC05SetPageFactory, /repo/pkg/queue/zz_verif_c05.go, build tag
-// verif): every meta page of a consumer group (path .../cg/<name>) is wrapped so that one chosen
-// PutUint64 can be parked. Pages of the queue itself are not wrapped.
+// verif): every meta page of a consumer group (path .../cg/<name>) and the queue's meta page
+// (.../meta) are wrapped so that a chosen PutUint64 or a chosen msync (Sync) can be parked, and the
+// msync can be made to fail. Data and index pages of the queue are not wrapped.
 
 var errInjected = errors.New("injected: too many open files")
+var errMsync = errors.New("injected: msync: input/output error")
 
 type gate struct {
 	match   string // substring of the page factory's path
-	skip    int    // number of matching stores that pass before one is parked
+	skip    int    // number of matching stores (msyncs) that pass before one is parked
+	onSync  bool   // the gate watches MappedPage.Sync (msync) instead of PutUint64
+	noPark  bool   // (msync gates) do not park, only inject the failure
+	fail    error  // (msync gates) what the chosen Sync returns; the stores stay in the mapped page
 	hit     chan struct{}
 	release chan struct{}
 	once    sync.Once
@@ -54,6 +59,16 @@ func armGate(match string) *gate { return armGateN(match, 0) }
 // Gates armed earlier stay armed (two stores can be parked at the same time).
 func armGateN(match string, skip int) *gate {
 	g := &gate{match: match, skip: skip, hit: make(chan struct{}, 1), release: make(chan struct{})}
+	gateMu.Lock()
+	gates = append(gates, g)
+	gateMu.Unlock()
+	return g
+}
+
+// armSyncGate arms a gate on the msync (MappedPage.Sync) of a page under a matching path: the
+// (skip+1)-th one is parked (unless noPark) and returns fail (nil = the real result).
+func armSyncGate(match string, skip int, noPark bool, fail error) *gate {
+	g := &gate{match: match, skip: skip, onSync: true, noPark: noPark, fail: fail, hit: make(chan struct{}, 1), release: make(chan struct{})}
 	gateMu.Lock()
 	gates = append(gates, g)
 	gateMu.Unlock()
@@ -111,7 +126,7 @@ func (p *gatedPage) PutUint64(value uint64, offset int) {
 	var g *gate
 	park := false
 	for _, c := range gates {
-		if c.fired || !strings.Contains(p.path, c.match) {
+		if c.fired || c.onSync || !strings.Contains(p.path, c.match) {
 			continue
 		}
 		// the first armed gate that matches sees the store: it lets it pass or parks it
@@ -130,6 +145,35 @@ func (p *gatedPage) PutUint64(value uint64, offset int) {
 	p.MappedPage.PutUint64(value, offset)
 }
 
+// Sync: an armed msync gate parks the call after the stores have landed in the mapped page and / or
+// makes it fail. The real msync is still performed (what a failed msync leaves on disk is C05's
+// subject; the mapped page keeps the stores either way).
+func (p *gatedPage) Sync() error {
+	gateMu.Lock()
+	var g *gate
+	for _, c := range gates {
+		if c.fired || !c.onSync || !strings.Contains(p.path, c.match) {
+			continue
+		}
+		if c.skip > 0 {
+			c.skip--
+		} else {
+			c.fired, g = true, c
+		}
+		break
+	}
+	gateMu.Unlock()
+	if g != nil && !g.noPark {
+		g.hit <- struct{}{}
+		<-g.release
+	}
+	err := p.MappedPage.Sync()
+	if g != nil && g.fail != nil {
+		return g.fail
+	}
+	return err
+}
+
 // installSeam wraps the meta page factories of consumer groups; returns the restore function.
 func installSeam() func() {
 	return queue.VerifC05SetPageFactory(func(path string, pageSize int) (page.Factory, error) {
@@ -141,7 +185,9 @@ func installSeam() func() {
 		}
 		gateMu.Unlock()
 		f, err := page.NewFactory(path, pageSize)
-		if err != nil || !strings.Contains(path, "/cg/") {
+		// consumer-group meta pages (…/cg/<g>) and the queue's own meta page (…/meta); data and index
+		// pages are not wrapped
+		if err != nil || !(strings.Contains(path, "/cg/") || strings.HasSuffix(path, "/meta")) {
 			return f, err
 		}
 		return &gatedFactory{Factory: f, path: path + "/"}, nil
